@@ -166,6 +166,19 @@ func c08scenarios(thorough bool) []c08scn {
 		warmUp()
 		return []func() interface{}{c08unmarshal(warm, `{"X":55,"f":"not-a-number","m":{"a":[`, "55"), c08unmarshal(warm, `{"X":66,"f":9,"m":{"a":1}}`, "66")}
 	})
+	// json.Marshaler output is compacted through a pooled bytes.Buffer (CompactMarshaler is on
+	// in ConfigStd): the buffer may go back to the pool only after its bytes were copied out
+	add("warm ConfigStd.Marshal(Marshaler) || ConfigStd.Marshal(Marshaler) (compaction buffer pool)", func() []func() interface{} {
+		mk := func(tag string) func() interface{} {
+			v := []c08spaced{{tag + "1"}, {tag + "2"}}
+			return func() interface{} {
+				b, err := sonic.ConfigStd.Marshal(v)
+				return fmt.Sprint(string(b), "|", err)
+			}
+		}
+		mk("W")() // compile and warm the pools
+		return []func() interface{}{mk("A"), mk("B")}
+	})
 	add("Valid || Get || Valid (state machine pool)", func() []func() interface{} {
 		doc := []byte(`{"a":[1,{"b":[true,null]}],"c":"d"}`)
 		bad := []byte(`{"a":[1,{"b":[true,nul`)
@@ -486,4 +499,11 @@ func c08racepass(c *ev.Ctx, r *ev.Report) {
 		}
 	}
 	r.Distinct = int64(len(scns))
+}
+
+// c08spaced: a json.Marshaler whose output needs compaction
+type c08spaced struct{ S string }
+
+func (c c08spaced) MarshalJSON() ([]byte, error) {
+	return []byte(` { "s" : "` + c.S + `" , "pad" : [ 1 , 2 , 3 ] } `), nil
 }
